@@ -66,5 +66,9 @@ SliceInRange ==
 
 \* lemmas used by C06 (checked on the same scope by MC_KmerSearch)
 LemmaRevCompInvariant == SigDef(RevComp(seq), k, pre) = SigDef(seq, k, pre)
+\* a long sequence may be searched piecewise: pieces [0, c+T-1) and [c, n) with T = |prefix| + k cover every window
+LemmaPieces ==
+  LET n == Len(seq)  T == Len(pre) + k IN
+  \A c \in 0..n : SigDef(seq, k, pre) = SigDef(Sub(seq, 0, Min2(n, c + T - 1)), k, pre) \cup SigDef(Sub(seq, c, n), k, pre)
 LemmaCaseInvariant == SigDef(UpSeq(seq), k, pre) = SigDef(seq, k, pre)
 =============================================================================
